@@ -57,11 +57,22 @@ func parseModel(m string) map[string]string {
 	return out
 }
 
+var replayCache = map[string]string{}
+
 func tryReplay(p *Prog, vdir, prop string, o *Obligation, vc *VC, rdir string) string {
 	driver := filepath.Join(vdir, "replay_drivers", prop, sanitizeFile(o.Func)+"_test.go")
 	if _, err := os.Stat(driver); err != nil {
 		return ""
 	}
+	if r, ok := replayCache[driver]; ok {
+		return r + "\n(driver run once per check; result shared by the obligations of this function)"
+	}
+	r := tryReplay1(p, vdir, prop, o, vc, rdir, driver)
+	replayCache[driver] = r
+	return r
+}
+
+func tryReplay1(p *Prog, vdir, prop string, o *Obligation, vc *VC, rdir string, driver string) string {
 	// package directory of the function
 	fn := p.allFuncs()[o.Func]
 	if fn == nil {
